@@ -1492,6 +1492,59 @@ func archCompat(r *Run, w *World) {
 			okEff := eff == want || (strings.HasSuffix(want, arm.Subject) && eff == "phi \""+rt+"\"")
 			r.Check(okEff, key, pos, eff, fmt.Sprintf("%s on %s resolves by [%s]; want [%s]", kind, rt, eff, want))
 		}
+		if len(seen) == 0 {
+			// the same mapping as data: a read-only table table[kind][runtime] = real looked up
+			// with the lower-cased argument and the runtime architecture
+			var tbl *ssa.Global
+			instrsOf(ga, func(in ssa.Instruction) {
+				lk, ok := in.(*ssa.Lookup)
+				if !ok {
+					return
+				}
+				inner := lk.X
+				if ex, isEx := inner.(*ssa.Extract); isEx {
+					inner = ex.Tuple
+				}
+				l2, ok := inner.(*ssa.Lookup)
+				if !ok {
+					return
+				}
+				if ld, isLd := l2.X.(*ssa.UnOp); isLd && ld.Op == token.MUL {
+					if g, isG := ld.X.(*ssa.Global); isG && strings.Contains(Term(lk.Index), "getRuntimeArch") {
+						tbl = g
+					}
+				}
+			})
+			if tbl == nil || w.roTable(tbl) == nil {
+				r.Undecided("getArch b32/b64 resolution", ga.Pos(), "getArch neither tests the runtime architecture arm by arm nor looks it up in a read-only table[kind][runtime]")
+			} else if ents, p, _, err := w.MapLit(tbl.Pkg.Pkg.Name(), tbl.Name()); err != nil {
+				r.Anchor(err)
+			} else {
+				for _, outer := range ents {
+					kind, _ := cStr(outer.KeyC)
+					lit, isLit := outer.Val.(*ast.CompositeLit)
+					if (kind != "b64" && kind != "b32") || !isLit {
+						r.Undecided("getArch table entry "+kind, outer.Pos, "not a b32/b64 entry with a literal value")
+						continue
+					}
+					for _, kv := range LitEntries(p, lit) {
+						rt, _ := cStr(kv.KeyC)
+						real, isC := cStr(kv.ValC)
+						want := ""
+						switch {
+						case kind == "b64" && compat[rt] != "":
+							want = rt
+						case kind == "b32" && self32[rt]:
+							want = rt
+						case kind == "b32" && compat[rt] != "":
+							want = compat[rt]
+						}
+						seen[kind+"/"+rt] = true
+						r.Check(isC && want != "" && real == want, "getArch "+kind+" on "+rt, kv.Pos, real, fmt.Sprintf("%s on %s resolves to %q; want %q", kind, rt, real, want))
+					}
+				}
+			}
+		}
 		for rt := range compat {
 			for _, kind := range []string{"b64", "b32"} {
 				if !seen[kind+"/"+rt] {
